@@ -467,7 +467,10 @@ impl<'a> UserModel<'a> {
         let font_size = style.font.sz as f64;
         let line_height = font_size * 1.5;
         let cell_height = (line_count - 1.0) * line_height + 8.0 + font_size;
-        if cell_height > row_height {
+        // A hidden row reports height 0: it must not be auto-fitted (that would be recorded
+        // as a height change from 0 and undoing it would leave a visible row of height 0)
+        let row_hidden = self.model.is_row_hidden(sheet, row)?;
+        if cell_height > row_height && !row_hidden {
             diff_list.push(Diff::SetRowHeight {
                 sheet,
                 row,
